@@ -84,7 +84,7 @@ def twoGets : List POut := [{ msgs := [{}, {}] }]
 `HTTPException` makes the server write a *second* status line + header block inside the first
 response's chunked body, keep the connection open and answer the next request. -/
 theorem second_header_block_inside_stream :
-    (run (init {} [[.prepare, .fin .e403], [.fin .ok]] twoGets) [.data 56, .tick]).wire.reverse =
+    (run (init {} [[.prepare true, .fin .e403], [.fin .ok]] twoGets) [.data 56, .tick]).wire.reverse =
       [.hdr 0 200 false, .chunk 0, .hdr 0 403 false, .eof 0, .hdr 1 200 false, .eof 1] := by
   decide +kernel
 
@@ -92,7 +92,7 @@ theorem second_header_block_inside_stream :
 Content-Length gets a close-delimited body, but `resp.keep_alive` stays true: the next
 response is written after it (into what the client must take for the body). -/
 theorem close_delimited_body_then_next_response :
-    (run (init {} [[.prepare, .fin .ok], [.fin .ok]]
+    (run (init {} [[.prepare true, .fin .ok], [.fin .ok]]
         [{ msgs := [{ v11 := false, vge11 := false }, {}] }]) [.data 60, .tick]).wire.reverse =
       [.hdr 0 200 true, .chunk 0, .eof 0, .hdr 1 200 false, .eof 1] := by
   decide +kernel
